@@ -347,6 +347,27 @@ def run_job(scr, job, small=False, trace_prop=None, timeout=None):
             _must(rc, "goto-cc (contract stubs)", so, se)
             cur = r2
 
+        # constant-bound loops nested inside contracted loops are unwound
+        # completely first (with unwinding assertions, so the bound is
+        # checked): the installed goto-instrument crashes on nested loop
+        # contracts (instrument_spec_assigns: source_location.is_not_nil)
+        if job.get("pre_unwind"):
+            rc, so, se, _, _ = run(["goto-instrument", "--show-loops", cur], cwd=wd)
+            _must(rc, "show-loops(pre-unwind)", so, se)
+            uw = []
+            for pu in job["pre_unwind"]:
+                hit = [l for l in parse_show_loops(so) if l["function"] == pu["function"]
+                       and pu["anchor"] in _srcline(l.get("file", ""), l.get("line", 0), 1)]
+                if len(hit) != 1:
+                    raise ToolError("pre-unwind loop in %s anchored at %r matches %d loops"
+                                    % (pu["function"], pu["anchor"], len(hit)))
+                uw.append("%s.%d:%d" % (pu["function"], hit[0]["id"], pu["n"] + 1))
+            p_gb = os.path.join(wd, "p.gb")
+            cmd = ["goto-instrument", "--unwindset", ",".join(uw), "--unwinding-assertions", cur, p_gb]
+            res.cmds.append(" ".join(cmd))
+            rc, so, se, _, _ = run(cmd, cwd=wd)
+            _must(rc, "goto-instrument --unwindset (pre-unwind)", so, se)
+            cur = p_gb
         # loop contracts
         rc, so, se, _, _ = run(["goto-instrument", "--show-loops", cur], cwd=wd)
         _must(rc, "show-loops", so, se)
